@@ -55,6 +55,19 @@ def switch(target_handle: Handle[World], clear_current=False, clear_next=False,
     if from_world is None:
         from_world = desper.default_loop.current_world
 
+    # Clear the target handle here, before retrieving the world, if the
+    # loop is asked to clear it: this way the instance that receives
+    # ON_SWITCH_IN is the one that will be executed, and not one that
+    # the loop is about to discard. This applies to clear_current too
+    # when switching to the very handle that is being left
+    switching_to_self = (target_handle.cached
+                         and target_handle() is from_world)
+    if clear_next or (clear_current and switching_to_self):
+        target_handle.clear()
+    clear_next = False
+    if switching_to_self:
+        clear_current = False
+
     to_world = target_handle()
 
     if from_world is not None:
